@@ -429,6 +429,9 @@ class Exec:
             elif os.path.exists(path):      # left there by an earlier block
                 with open(path, "rb") as f:
                     pre = f.read()
+            for other, val in list(self.archive_blocks.items()):
+                if val[0] == path:
+                    del self.archive_blocks[other]
             fmt = blk["fmt"]
             member = blk["name"][:-(len(fmt) + 1)] if fmt and \
                 blk["name"].endswith("." + fmt) else blk["name"]
@@ -610,6 +613,7 @@ class Exec:
                                 f"expected {len(content)}"))
             return
         if blk["name"].endswith("." + fmt):
+            # a later block may overwrite the archive of an earlier one
             self.archive_blocks[bi] = (path, fmt, member, content)
 
     def _check_debris(self, bi, tmp_default, tmp_explicit, copy_path):
